@@ -166,6 +166,18 @@ def run_unit(unit, tier):
                 continue
             info = dict(base_info, fault="schemaless-prefix", cut=cut, record=r, unit=unit)
             res.add(Violation("c06.schemaless", "prefix-returned-value", f"prefix {enc[:cut].hex()} of {enc.hex()} returned {short(out)} | {short(info, 300)}", info))
+        # the same prefixes with the value as a trailing field that the reader schema drops (skip path)
+        WL = {"type": "record", "name": "WrapL__", "fields": [{"name": "keep", "type": "int"}, {"name": "skipme", "type": copy.deepcopy(raw)}]}
+        RL = {"type": "record", "name": "WrapL__", "fields": [{"name": "keep", "type": "int"}]}
+        for cut in range(len(enc)):
+            res.evals += 1
+            seen.add(("sk", enc[:cut]))
+            try:
+                out = fa.schemaless_reader(io.BytesIO(b"\x02" + enc[:cut]), WL, RL)
+            except Exception:
+                continue
+            info = dict(base_info, fault="schemaless-prefix-skipped", cut=cut, record=r, unit=unit)
+            res.add(Violation("c06.schemaless", "prefix-skipped-returned-value", f"prefix {enc[:cut].hex()} of {enc.hex()} in a dropped trailing field returned {short(out)} | {short(info, 300)}", info))
     res.distinct = len(seen)
     res.stats["cut_offsets"] += len(data) + 1
     res.stats["marker_bytes"] += 16 * len(p["blocks"])
